@@ -23,6 +23,17 @@ Read from /repo on every run and written to lean/YashModel/Generated/AliasTables
   yash-builtin/src/alias/semantics.rs `define`         -> aliasSplitChar (the `find(..)` argument),
                                                           aliasDefinesGlobal (3rd argument of `HashEntry::new`)
 
+  yash-syntax/src/parser/*.rs (every file of the directory except core.rs; lex/ is the lexer)
+      every call `take_token_auto(&[..])` /              -> substTakes        (file, function, "auto", reserved words
+      `take_token_manual(<flag>)` outside the tests                            given) / (file, function, "manual", [flag]);
+                                                          flag is "true", "false" or "words.is_empty()"
+      (every other token is taken with `take_token_raw`: never substituted)
+  yash-syntax/src/parser/core.rs
+      `take_token_auto` / `take_token_manual` bodies   -> autoCommandFlag    the literal `is_command_name` that
+                                                          `take_token_auto` passes to `substitute_alias`; shapes checked:
+                                                          a reserved word among `keywords` is returned before the call,
+                                                          `take_token_manual` passes its own parameter
+
 `lean/YashModel/Alias/TableLemmas.lean` states (kernel-checked on every run) that the hand-written definitions
 of `Alias/Model.lean` (`operators`, `isOpChar`, `keywords`, `isRedirOp`, `isHereOp`, `isBlank`, `endsBlank`, the
 option handling of `applyCmd`, `defineAlias`) agree with these tables, so an edit of a Rust table breaks the proof
@@ -281,6 +292,131 @@ def _option_specs(h, src, expr, what, depth=0):
     return specs
 
 
+def _fn_spans(h, src, what):
+    """[(name, start of body, end of body)] of every `fn` item that has a body"""
+    spans = []
+    for m in re.finditer(r"\bfn\s+(\w+)\s*(?:<[^>{(]*>)?\s*(?=\()", src):
+        _, e = _block(h, src, m.end(), f"{what}: parameters of fn {m.group(1)}")
+        i = e
+        while i < len(src) and src[i] not in "{;":
+            i += 1
+        if i >= len(src) or src[i] == ";":
+            continue
+        _, be = _block(h, src, i, f"{what}: body of fn {m.group(1)}")
+        spans.append((m.group(1), i, be))
+    return spans
+
+
+def _enclosing_fn(spans, pos, what, h):
+    """innermost function whose body contains `pos`"""
+    inside = [(b, e, n) for n, b, e in spans if b < pos < e]
+    if not inside:
+        h.fail(f"{what}: call outside any function body")
+    b, e, n = max(inside)
+    return n, b, e
+
+
+def _resolve_let(h, fn_text, ident, what):
+    """the single `let ident = <expr>;` of the function text"""
+    ms = re.findall(r"\blet\s+(?:mut\s+)?" + re.escape(ident) + r"\s*(?::\s*[^=;]+)?=\s*([^;]+);", fn_text)
+    if len(ms) != 1:
+        h.fail(f"{what}: `{ident}` is not a literal and has {len(ms)} `let` bindings in the function")
+    return ms[0].strip()
+
+
+def _subst_takes(h, kw_text):
+    """every substitution-enabled way a token is taken by the parser functions (not core.rs, not the tests)"""
+    import os
+    rel = "yash-syntax/src/parser"
+    d = os.path.join(h.REPO, rel)
+    if not os.path.isdir(d):
+        h.fail(f"anchor not found: directory {rel}")
+    takes = []
+    for f in sorted(os.listdir(d)):
+        if not f.endswith(".rs") or f == "core.rs":
+            continue
+        src = _strip(h.read(f"{rel}/{f}"))
+        spans = _fn_spans(h, src, f"{rel}/{f}")
+        n_ident = len(re.findall(r"\btake_token_(?:auto|manual)\b", src))
+        calls = list(re.finditer(r"\.\s*take_token_(auto|manual)\s*\(", src))
+        if n_ident != len(calls):
+            h.fail(f"{rel}/{f}: take_token_auto/take_token_manual is mentioned {n_ident} times but called as a method "
+                   f"{len(calls)} times (passed as a function value? the call sites cannot be classified)")
+        for m in calls:
+            what = f"{rel}/{f}: take_token_{m.group(1)} call"
+            fn, fb, fe = _enclosing_fn(spans, m.start(), what, h)
+            fn_text = src[fb:fe]
+            args = _split_top(_block(h, src, m.end() - 1, what)[0])
+            if len(args) != 1:
+                h.fail(f"{what} in {fn}: {len(args)} arguments")
+            a = re.sub(r"\s+", "", args[0])
+            if m.group(1) == "auto":
+                for _ in range(3):
+                    if re.fullmatch(r"&?\[.*\]", a, re.S):
+                        break
+                    cm = re.fullmatch(r"&?((?:\w+::)*)(\w+)", a)
+                    if not cm:
+                        h.fail(f"{what} in {fn}: argument {args[0]!r} is neither a slice literal nor a name")
+                    name = cm.group(2)
+                    dm = re.search(r"\b(?:const|static)\s+" + name + r"\s*:\s*[^=;]+=\s*([^;]+);", src)
+                    a = re.sub(r"\s+", "", dm.group(1) if dm else _resolve_let(h, fn_text, name, what))
+                sm = re.fullmatch(r"&?\[(.*)\]", a, re.S)
+                if not sm:
+                    h.fail(f"{what} in {fn}: reserved-word list {args[0]!r} not understood")
+                words = []
+                for e in _split_top(sm.group(1)):
+                    v = _variant(h, e, what)
+                    if v not in kw_text:
+                        h.fail(f"{what} in {fn}: {e!r} is not a Keyword variant")
+                    words.append(kw_text[v])
+                takes.append((f[:-3], fn, "auto", sorted(set(words))))
+            else:
+                for _ in range(3):
+                    if a in ("true", "false") or not re.fullmatch(r"\w+", a):
+                        break
+                    a = re.sub(r"\s+", "", _resolve_let(h, fn_text, a, what))
+                if a in ("true", "false"):
+                    flag = a
+                elif re.fullmatch(r"\w+\.words\.is_empty\(\)", a) or re.fullmatch(r"\w+\.words\.len\(\)==0", a):
+                    flag = "words.is_empty()"
+                else:
+                    h.fail(f"{what} in {fn}: is_command_name argument {args[0]!r} is not `true`, `false` or "
+                           "`<builder>.words.is_empty()`")
+                takes.append((f[:-3], fn, "manual", [flag]))
+    if not takes:
+        h.fail(f"{rel}: no take_token_auto / take_token_manual call found")
+    return sorted(takes)
+
+
+def _take_token_shapes(h, core):
+    """core.rs: `take_token_manual(f)` = raw + substitute_alias(token, f); `take_token_auto(kws)` loops over raw, returns a
+    reserved word of `kws` as it is, else substitute_alias(token, <literal>) -> that literal"""
+    what = "core.rs take_token_manual"
+    m = re.search(r"\bfn\s+take_token_manual\s*\(\s*&mut\s+self\s*,\s*(\w+)\s*:\s*bool\s*\)", core)
+    if not m:
+        h.fail(f"anchor not found: {what}")
+    body = re.sub(r"\s+", "", _block(h, core, core.find("{", m.end()), what)[0])
+    p = m.group(1)
+    if not re.fullmatch(r"let(\w+)=self\.take_token_raw\(\)\.await\?;(?:Ok\(self\.substitute_alias\(\1," + p
+                        + r"\)\)|return Ok\(self\.substitute_alias\(\1," + p + r"\)\);?)".replace(" ", ""), body):
+        h.fail(f"{what}: body shape not understood: {body!r}")
+    what = "core.rs take_token_auto"
+    m = re.search(r"\bfn\s+take_token_auto\s*\(\s*&mut\s+self\s*,\s*(\w+)\s*:\s*&\s*\[\s*Keyword\s*\]\s*\)", core)
+    if not m:
+        h.fail(f"anchor not found: {what}")
+    body = re.sub(r"\s+", "", _block(h, core, core.find("{", m.end()), what)[0])
+    k = m.group(1)
+    shape = (r"loop\{let(\w+)=self\.take_token_raw\(\)\.await\?;"
+             r"if(?:letToken\(Some\((\w+)\)\)=\1\.id&&" + k + r"\.contains\(&\2\)"
+             r"|matches!\(\1\.id,Token\(Some\((\w+)\)\)if" + k + r"\.contains\(&\3\)\))"
+             r"\{returnOk\(\1\);?\}"
+             r"ifletRec::Parsed\((\w+)\)=self\.substitute_alias\(\1,(true|false)\)\{returnOk\(\4\);?\}\}")
+    sm = re.fullmatch(shape, body)
+    if not sm:
+        h.fail(f"{what}: body shape not understood: {body!r}")
+    return sm.group(5)
+
+
 def alias_tables(h):
     def load(rel):
         return _strip(h.read(rel))
@@ -343,6 +479,7 @@ def alias_tables(h):
     what = "impl FromStr for Keyword"
     body = _item(h, kw_src, r"impl\s+FromStr\s+for\s+Keyword\s*(?=\{)", what)
     kws = []
+    kw_text = {}
     for pats, val in _match_arms(h, body, what):
         v = _variant(h, val, what)
         for p in pats:
@@ -353,6 +490,9 @@ def alias_tables(h):
             if v is None:
                 h.fail(f"{what}: arm {p!r} is an error")
             kws.append(_str_lit(h, p, what))
+            if v in kw_text:
+                h.fail(f"{what}: variant {v} has two texts")
+            kw_text[v] = kws[-1]
     if len(set(kws)) != len(kws):
         h.fail(f"{what}: a text occurs twice")
 
@@ -448,6 +588,11 @@ def alias_tables(h):
             h.fail(f"{what}: the `global` argument {g!r} is not a literal or a single literal binding")
         g = lm[0]
 
+
+    # --- which take_token_* the parser functions use (the position automaton `trans` of the model)
+    takes = _subst_takes(h, kw_text)
+    auto_flag = _take_token_shapes(h, _strip(h.read("yash-syntax/src/parser/core.rs")))
+
     def lstr(x):
         return h.lean_str(x).replace("\n", "\\n").replace("\t", "\\t").replace("\r", "\\r")
 
@@ -497,7 +642,13 @@ def alias_tables(h):
         "/-- `define` (alias/semantics.rs): the operand is split at the first occurrence of this character -/\n"
         f"def aliasSplitChar : Char := {lchar(split_char)}\n\n"
         "/-- … and the alias is entered with this `global` flag -/\n"
-        f"def aliasDefinesGlobal : Bool := {g}\n"
+        f"def aliasDefinesGlobal : Bool := {g}\n\n"
+        "/-- every call of `take_token_auto` / `take_token_manual` in yash-syntax/src/parser/*.rs outside core.rs and the\n"
+        "    tests: (file, function, \"auto\", reserved words passed) or (file, function, \"manual\", [flag]) -/\n"
+        "def substTakes : List (String × String × String × List String) := [\n  "
+        + ",\n  ".join(f"({lstr(f)}, {lstr(fn)}, {lstr(k)}, {strs(a)})" for f, fn, k, a in takes) + "]\n\n"
+        "/-- `take_token_auto` calls `substitute_alias(token, <this>)`; `take_token_manual(f)` calls it with `f` -/\n"
+        f"def autoCommandFlag : Bool := {auto_flag}\n"
     )
     h.write("AliasTables", body)
 
